@@ -53,6 +53,7 @@ type c17Scenario struct {
 	BodyKind    string            `json:"body"` // none | obj
 	Fault       string            `json:"fault"`
 	Evals       int               `json:"evaluations"`
+	FaultOnce   bool              `json:"network_fault_hits_the_first_evaluation_only,omitempty"`
 	Via         string            `json:"via"` // Eval | Subscribe
 	TornAt      int               `json:"torn_at,omitempty"`
 	Neighbour   bool              `json:"concurrent_json_neighbour,omitempty"`
@@ -270,6 +271,12 @@ func genC17(t *simrt.Tape, tier string) Scenario {
 	sc.Fault = faults[t.Choose(len(faults))]
 	sc.TornAt = t.Choose(12)
 	sc.Evals = []int{1, 0, 2, 3}[t.Choose(4)]
+	switch sc.Fault {
+	case "transport", "torn", "empty", "malformed", "trailing-data", "read-error-after-body":
+		if sc.Evals >= 2 {
+			sc.FaultOnce = t.Bool(1, 2)
+		}
+	}
 	if len(sc.Params) >= 2 && sc.Evals >= 1 {
 		// the URL is rebuilt on every evaluation; several evaluations make a map-order dependent
 		// substitution mistake show up (and replay) reliably
@@ -554,6 +561,12 @@ func (sc *c17Scenario) Run(s *simrt.Sim) {
 		io_.ObserveOn(hd)
 	}
 	for i := 0; i < sc.Evals; i++ {
+		tf := sc.Fault
+		if sc.FaultOnce && i >= 1 {
+			// the network fault hit the first evaluation only: the later ones are healthy calls and must succeed
+			tf = "none"
+			tr.fault = "none"
+		}
 		before := len(tr.recs)
 		var resp *network.APIResponse[c17Resp]
 		var op *Op
@@ -593,7 +606,7 @@ func (sc *c17Scenario) Run(s *simrt.Sim) {
 			continue
 		}
 		bodyFault := sc.Fault == "request-body-read-error" && sc.BodyKind != "none" && (sc.isJSON() || sc.isMultipart())
-		failing := wantSent == 0 || bodyFault || sc.Fault == "transport" || sc.Fault == "torn" || sc.Fault == "empty" || sc.Fault == "malformed" || sc.Fault == "trailing-data" || sc.Fault == "deserializer-nil" || sc.Fault == "read-error-after-body"
+		failing := wantSent == 0 || bodyFault || tf == "transport" || tf == "torn" || tf == "empty" || tf == "malformed" || tf == "trailing-data" || sc.Fault == "deserializer-nil" || tf == "read-error-after-body"
 		if failing {
 			sc.probes["fault-"+sc.Fault]++
 			s.Fault(sc.Fault)
